@@ -56,6 +56,7 @@ def cases(seed, tier):
 
 
 def install():
+    probe.enable_recall("C20.recall", every=3, only=("isplit", "splitarray"))
     for p in ("esutil.algorithm:quicksort", "esutil.algorithm:quicksort_keyvalue", "esutil.algorithm:isplit",
               "esutil.numpy_util:splitarray", "esutil.pbar:pbar", "esutil.pbar:prange", "esutil.pbar:pmap"):
         inplace = (lambda a, k: ("*",)) if "quicksort" in p else None
